@@ -38,9 +38,10 @@ command lines only (the statement needs the command line "with `-z` toggled").  
 C11 (as in C11 itself).  Where the model says `unmodelled` (`-e` with a regex outside
 `Tuc.Model.Regex`, `-c` on input that is not UTF-8) §1 only says "not `panic`".
 
-Imports.  `Tuc.Props.EndToEnd` cannot be imported together with `Tuc.Props.C11` (both declare
-`Tuc.exLines`), nor `Tuc.Lemmas.RegexSpec` / `Tuc.Props.C16` together with `Tuc.Props.C12` (C12
-imports C07; `Tuc.rangesBetweenMatches_boundaries` is declared in C07 and in Lemmas/RegexSpec).
+Imports.  When this file was written `Tuc.Props.EndToEnd` could not be imported together with
+`Tuc.Props.C11`, nor `Tuc.Lemmas.RegexSpec` / `Tuc.Props.C16` together with `Tuc.Props.C12` (two
+pairs of declarations with the same name; since renamed — `Tuc.AllProps` imports every property
+file together — but the self-contained form below was kept).
 Hence: (a) the acceptance condition of EndToEnd (`K.accepted` + `optAll regexOk K.e` +
 `regexOk charsRegexText`, which `Canon.sensible` / `Canon.accepted_parts` there turn into exactly
 the three fields below) is restated as the structure `Canon.Accepted`, and `tucMain_canon` is
